@@ -187,6 +187,9 @@ def expected_max_time(tb):
     return v / 1000.0 if tb[1] == 'ms' else v
 
 
+EXPECTED_MIN_TIME = [None]  # lower bound given to API-built patterns (hplapi.MIN_TIME); text has no syntax for one
+
+
 def compare_property(p, h, out, path='property', check_meta=True):
     if _cls(h) != 'HplProperty':
         out.append(f'{path}: expected a property, got {_cls(h)}')
@@ -202,9 +205,10 @@ def compare_property(p, h, out, path='property', check_meta=True):
     pos = absyn.prop_positions(p)
     compare_event(pos.get('trigger'), hp.trigger, out, path + '.pattern.trigger')
     compare_event(pos.get('behaviour'), hp.behaviour, out, path + '.pattern.behaviour')
-    if hp.min_time != 0:
-        out.append(f'{path}.pattern: min_time {hp.min_time!r} != 0')
     exp = expected_max_time(pat[4])
+    exp_min = 0 if EXPECTED_MIN_TIME[0] is None else min(EXPECTED_MIN_TIME[0], exp)
+    if hp.min_time != exp_min:
+        out.append(f'{path}.pattern: min_time {hp.min_time!r} != {exp_min!r}')
     got = hp.max_time
     if not isinstance(got, float):
         out.append(f'{path}.pattern: max_time is {type(got).__name__}')
